@@ -811,6 +811,9 @@ def normalise_module(tree):
         for node in ast.walk(tree):
             if isinstance(node, (ast.FunctionDef, ast.AsyncFunctionDef)):
                 n += inline_single_use_locals(node)
+        ms2 = _MaskSelect()          # a mask that was held in a local is now written in place: N7 once more
+        ms2.visit(tree)
+        n += ms2.count
     for node in ast.walk(tree):
         if isinstance(node, (ast.FunctionDef, ast.AsyncFunctionDef)):
             n += inline_test_locals(node)
